@@ -2663,19 +2663,23 @@ func (m *machine) lowerFcopysign(instr *ssa.Instruction) {
 
 	signBitReg := m.c.AllocateVReg(x.Type())
 	m.lowerFconst(signBitReg, signMask, _64)
-	nonSignBitReg := m.c.AllocateVReg(x.Type())
-	m.lowerFconst(nonSignBitReg, ^signMask, _64)
 
 	// Extract the sign bits of rn.
 	and := m.allocateInstr().asXmmRmR(opAnd, rn, signBitReg)
 	m.insert(and)
+	// The AND above modified signBitReg in place, which the register allocator does not treat as a definition:
+	// if it were spilled and reloaded before the OR below, the reload would bring back the raw mask.
+	// Copy the result into a fresh register right away so that it has a proper definition.
+	signBits := m.copyToTmp(signBitReg)
 
 	// Clear the sign bit of dst via AND with the non-sign bit mask.
+	nonSignBitReg := m.c.AllocateVReg(x.Type())
+	m.lowerFconst(nonSignBitReg, ^signMask, _64)
 	xor := m.allocateInstr().asXmmRmR(opAnd, rm, nonSignBitReg)
 	m.insert(xor)
 
 	// Copy the sign bits of src to dst via OR.
-	or := m.allocateInstr().asXmmRmR(opOr, newOperandReg(signBitReg), nonSignBitReg)
+	or := m.allocateInstr().asXmmRmR(opOr, newOperandReg(signBits), nonSignBitReg)
 	m.insert(or)
 
 	m.copyTo(nonSignBitReg, rd)
